@@ -1378,6 +1378,14 @@ class DisjunctiveFormula(PropositionalCombinator):
 
 
 @cache
+def escape_non_ascii_for_z3(smt_text: str) -> str:
+    # Z3's SMT-LIB parser reads its input bytewise: a raw non-ASCII character in a
+    # string literal becomes several bogus characters. Escapes are read correctly.
+    return "".join(
+        char if ord(char) < 128 else f"\\u{{{ord(char):x}}}" for char in smt_text
+    )
+
+
 def smt_atom(val: bool) -> "SMTFormula":
     return SMTFormula(z3.BoolVal(val))
 
@@ -1418,7 +1426,7 @@ class SMTFormula(Formula):
                 | (substitutions or {}).keys()
             )
             self.formula: z3.BoolRef = z3.parse_smt2_string(
-                f"(assert {formula})",
+                f"(assert {escape_non_ascii_for_z3(formula)})",
                 decls={var.name: var.to_smt() for var in declared_symbols},
             )[0]
 
@@ -3812,7 +3820,7 @@ class ISLaEmitter(IslaLanguageListener.IslaLanguageListener):
 
         try:
             z3_constr = z3.parse_smt2_string(
-                f"(assert {formula_text})",
+                f"(assert {escape_non_ascii_for_z3(formula_text)})",
                 decls=(
                     {var: z3.String(var) for var in self.known_var_names()}
                     | {
